@@ -53,6 +53,11 @@ def base_scenarios(tier):
                     # all reads belong to the OTHER sample: the target is processed without any read of its own
                     for pre in ("none", "foreignPS", "foreignHP"):
                         yield {"k": k, "design": design, "hp": list(hp), "nsamp": 2, "pre": pre, "seed": seed, "reads_for": "S2"}
+                if design in ("one-block", "two-blocks") and k <= 4:
+                    # the VCF claims a homozygous genotype at variant 1 although the reads show both alleles; every
+                    # phasing operation of the history runs with --distrust-genotypes (the genotype is changed back)
+                    for cgt in ("0/0", "1/1"):
+                        yield {"k": k, "design": design, "hp": list(hp), "nsamp": 1, "pre": "none", "seed": seed, "distrust": True, "contradict": cgt}
                 for nsamp in (1, 2):
                     for pre in ("none", "gt10", "foreignPS", "foreignHP"):
                         if not T and nsamp == 2 and pre in ("gt10",) and k == 5:
@@ -80,6 +85,8 @@ def build_base(sc, d):
         call = {"GT": "0/1"}
         if pre == "gt10" and i == 1:
             call = {"GT": "1/0"}
+        if sc.get("contradict") and i == 1:
+            call = {"GT": sc["contradict"]}
         if pre == "foreignPS":
             # an old phasing that the reads do not support: one set over everything, wrong orientation at variant 1
             a = haps[i][0] if i != 1 else haps[i][1]
@@ -128,6 +135,9 @@ def build_base(sc, d):
                 cig += cc
                 prev_end = e
             alns.append({"name": f"r{n}", "chrom": "chrA", "start": start0, "cigar": cig, "seq": q, "rg": "rg_" + sc.get("reads_for", "S1")})
+            for rep in range(2 if sc.get("distrust") else 0):
+                # more evidence per haplotype, so that a contradicted genotype is changed back
+                alns.append(dict(alns[-1], name=f"r{n}c{rep}"))
     bam = os.path.join(d, "reads.bam")
     synth.write_bam(bam, [("chrA", length)], alns, read_groups=[{"ID": "rg_S1", "SM": "S1"}, {"ID": "rg_S2", "SM": "S2"}])
     return {"vcf": vcf_path, "fasta": fasta, "bam": bam, "pos": pos, "haps": haps}
@@ -239,6 +249,9 @@ def run_op(ctx, d, state_path, op, tag_i):
     kw = dict(tag=tag, samples=["S1"])
     if op in ("Ps", "Hs"):
         kw["only_snvs"] = True
+    if ctx.get("distrust"):
+        kw["distrust_genotypes"] = True
+        kw["include_homozygous"] = True
     if op.startswith("V0"):
         kw["phase_inputs"] = [ctx["vin0"]]
     elif op.startswith("V2"):
@@ -263,6 +276,7 @@ def judge(sc):
     for f in os.listdir(d):
         os.unlink(os.path.join(d, f))
     ctx = build_base(sc, d)
+    ctx["distrust"] = bool(sc.get("distrust"))
     viols = []
     trans = 0
     counter = [0]
@@ -291,7 +305,7 @@ def judge(sc):
         """I2 + 'stems from the new run' + decoder agreement"""
         st, parsed = target_statements(y_path)
         exp = {}
-        inp = synth.parse_vcf(x_path)
+        inp = synth.parse_vcf(x_path if not sc.get("distrust") else y_path)  # distrusted genotypes: heterozygous is what the output says
         si = inp["samples"].index("S1")
         het = {}
         for rec in inp["records"]:
